@@ -266,12 +266,10 @@ theorem raises_tablePVal (t : TableVal) : raises (tablePVal t) = none := by
 theorem raises_precursorPVal (p : Precursor) : raises (precursorPVal p) = none := by
   have h1 : raisesKvs (p.destinations.map (fun d => (d, PVal.none))) = none :=
     raisesKvs_none _ (by intro kv hkv; obtain ⟨d, _, rfl⟩ := List.mem_map.1 hkv; rfl)
-  have h2 : raisesKvs (dictOfList ((p.names.zip (p.units.zip (p.columns.map colPVal))).map colEntry)) = none :=
+  have h2 : raisesKvs (dictOfList (precursorColumns p)) = none :=
     raisesKvs_none _ (dictOfList_forall (fun v => raises v = none) _ (by
       intro kv hkv
-      obtain ⟨⟨n, u, v⟩, hm, rfl⟩ := List.mem_map.1 hkv
-      have hv : v ∈ p.columns.map colPVal := (List.of_mem_zip (List.of_mem_zip hm).2).2
-      obtain ⟨c, _, rfl⟩ := List.mem_map.1 hv
+      obtain ⟨⟨n, u, c⟩, _, rfl⟩ := List.mem_map.1 hkv
       exact raises_colEntry _ _ _ (raises_colPVal c)))
   simp [precursorPVal, raises, raisesKvs, h1, h2]
 
@@ -381,5 +379,668 @@ theorem strict_dumps_iff (t : TableVal) :
     funext c
     simp [Spec.colJson, anyNum, anyNumKvs, anyNumList_map, anyNum_leaf]
   simp [dumpsStrictOk, Spec.tableJson, anyNum, anyNumKvs, hd, hc]
+
+/-! ## 6. json_data_to_table rebuilds a well-formed table -/
+
+
+
+namespace Spec
+def cell (fi : Int → Str) : Val → Cell
+  | .text s => .str s
+  | .bool b => .bool b
+  | .num t => if t = "nan".toList then .none else .float t
+  | .int i => .int i (fi i)
+  | .dt t => if t = "NaT".toList then .none else .str (stamp t)
+
+def grid (fi : Int → Str) (t : TableVal) : List Row :=
+  [[Cell.str ("**".toList ++ t.name)], [Cell.str (joinWith ' ' t.destinations)],
+   t.columns.map (fun c => Cell.str c.name), t.columns.map (fun c => Cell.str c.unit)] ++
+  zipStar (t.columns.map (fun c => c.values.map (cell fi)))
+end Spec
+
+theorem leafCell_leaf (fi : Int → Str) (v : Val) : leafCell fi (Spec.leaf v) = .ok (Spec.cell fi v) := by
+  cases v with
+  | num t =>
+    show leafCell fi (if t = "nan".toList then JVal.null else JVal.num t) =
+      .ok (if t = "nan".toList then Cell.none else Cell.float t)
+    by_cases h : t = "nan".toList
+    · rw [if_pos h, if_pos h]; rfl
+    · rw [if_neg h, if_neg h]; rfl
+  | dt t =>
+    show leafCell fi (if t = "NaT".toList then JVal.null else JVal.str (Spec.stamp t)) =
+      .ok (if t = "NaT".toList then Cell.none else Cell.str (Spec.stamp t))
+    by_cases h : t = "NaT".toList
+    · rw [if_pos h, if_pos h]; rfl
+    · rw [if_neg h, if_neg h]; rfl
+  | _ => rfl
+
+theorem mapM_map_ok {α β γ} (f : γ → Except PyExc β) (h : α → γ) (g : α → β) (l : List α)
+    (hyp : ∀ x ∈ l, f (h x) = .ok (g x)) : (l.map h).mapM f = .ok (l.map g) := by
+  induction l with
+  | nil => rfl
+  | cons x xs ih =>
+    have h1 := hyp x (by simp)
+    have h2 := ih (fun y hy => hyp y (List.mem_cons_of_mem _ hy))
+    simp [List.mapM_cons, h1, h2, bind, Except.bind, pure, Except.pure]
+
+theorem toGrid_tableJson (fi : Int → Str) (t : TableVal) :
+    toGrid fi (Spec.tableJson t) = .ok (Spec.grid fi t) := by
+  have hn : member sName (Spec.tableJson t) = .ok (.str t.name) := rfl
+  have hd : member sDestinations (Spec.tableJson t) = .ok (.obj (t.destinations.map (fun d => (d, JVal.null)))) := rfl
+  have hc : columnsOf (Spec.tableJson t) = .ok (t.columns.map Spec.colJson) := rfl
+  have hu : (t.columns.map Spec.colJson).mapM unitOf =
+      .ok (t.columns.map (·.unit)) := mapM_map_ok _ _ _ _ (fun c _ => rfl)
+  have hv : (t.columns.map Spec.colJson).mapM valuesOf =
+      .ok (t.columns.map (fun c => JVal.arr (c.values.map Spec.leaf))) := mapM_map_ok _ _ _ _ (fun c _ => rfl)
+  have hcells : (t.columns.map (fun c => JVal.arr (c.values.map Spec.leaf))).mapM (valueCells fi) =
+      .ok (t.columns.map (fun c => c.values.map (Spec.cell fi))) :=
+    mapM_map_ok _ _ _ _ (fun c _ => by
+      show (c.values.map Spec.leaf).mapM (leafCell fi) = _
+      exact mapM_map_ok _ _ _ _ (fun v _ => leafCell_leaf fi v))
+  have hf : fstr (JVal.str t.name) = .ok t.name := rfl
+  have hj : joinItems (JVal.obj (t.destinations.map (fun d => (d, JVal.null)))) = .ok t.destinations := by
+    simp [joinItems, List.map_map, Function.comp_def]
+  simp only [toGrid, hn, hd, hc, hu, hv, hcells, hf, hj, bind, Except.bind, pure, Except.pure]
+  simp [Spec.grid, Spec.colJson, List.map_map, Function.comp_def]
+
+
+
+theorem strip_eq_self (s : Str) (h1 : ∀ c, s.head? = some c → isSpace c = false)
+    (h2 : ∀ c, s.getLast? = some c → isSpace c = false) : strip s = s := by
+  unfold strip lstrip rstrip
+  rw [dropWhile_eq_self isSpace s h1]
+  rw [dropWhile_eq_self isSpace s.reverse (by intro x hx; rw [List.head?_reverse] at hx; exact h2 x hx)]
+  exact List.reverse_reverse s
+
+theorem joinWith_ne_nil (sep : Char) (xs : List Str) (hx : xs ≠ []) (h : ∀ x ∈ xs, x ≠ []) : joinWith sep xs ≠ [] := by
+  match xs, hx with
+  | [x], _ => simpa [joinWith] using h x (by simp)
+  | x :: y :: rest, _ => simp [joinWith]
+
+theorem joinWith_head (sep : Char) (xs : List Str) (h : ∀ x ∈ xs, x ≠ []) (c : Char)
+    (hc : (joinWith sep xs).head? = some c) : ∃ x ∈ xs, c ∈ x := by
+  match xs with
+  | [] => simp [joinWith] at hc
+  | [x] => exact ⟨x, by simp, by simp [joinWith] at hc; exact List.mem_of_mem_head? hc⟩
+  | x :: y :: rest =>
+    have hx := h x (by simp)
+    simp only [joinWith] at hc
+    cases x with
+    | nil => exact absurd rfl hx
+    | cons a as => simp at hc; exact ⟨a :: as, by simp, by simp [hc]⟩
+
+theorem joinWith_last (sep : Char) (xs : List Str) (h : ∀ x ∈ xs, x ≠ []) (c : Char)
+    (hc : (joinWith sep xs).getLast? = some c) : ∃ x ∈ xs, c ∈ x := by
+  induction xs with
+  | nil => simp [joinWith] at hc
+  | cons x rest ih =>
+    cases rest with
+    | nil => exact ⟨x, by simp, by simp [joinWith] at hc; exact List.mem_of_getLast? hc⟩
+    | cons y rest' =>
+      have hne : joinWith sep (y :: rest') ≠ [] :=
+        joinWith_ne_nil sep (y :: rest') (by simp) (fun z hz => h z (List.mem_cons_of_mem _ hz))
+      simp only [joinWith] at hc
+      rw [List.getLast?_append] at hc
+      have : (sep :: joinWith sep (y :: rest')).getLast? = (joinWith sep (y :: rest')).getLast? := by
+        cases hj : joinWith sep (y :: rest') with
+        | nil => exact absurd hj hne
+        | cons a as => simp [List.getLast?_cons_cons]
+      rw [this] at hc
+      cases hl : (joinWith sep (y :: rest')).getLast? with
+      | none =>
+        have := List.getLast?_eq_none_iff.1 hl
+        exact absurd this hne
+      | some d =>
+        rw [hl] at hc
+        simp at hc
+        subst hc
+        obtain ⟨z, hz, hcz⟩ := ih (fun z hz => h z (List.mem_cons_of_mem _ hz)) hl
+        exact ⟨z, List.mem_cons_of_mem _ hz, hcz⟩
+
+theorem dedup_nodup (l : List Str) (h : l.Nodup) : dedup l = l := by
+  induction l with
+  | nil => rfl
+  | cons x xs ih =>
+    have hx := List.nodup_cons.1 h
+    simp only [dedup, ih hx.2]
+    congr 1
+    apply List.filter_eq_self.2
+    intro a ha
+    simp
+    intro e; subst e; exact hx.1 ha
+
+/-- destinations come back: tokens joined by one blank, split again -/
+theorem destinations_join (ds : List Str) (hne : ds ≠ []) (hnd : ds.Nodup)
+    (htok : ∀ d ∈ ds, d ≠ [] ∧ ∀ c ∈ d, isSpace c = false) :
+    destinations (.str (joinWith ' ' ds)) = ds := by
+  have hs : strip (joinWith ' ' ds) = joinWith ' ' ds := by
+    apply strip_eq_self
+    · intro c hc
+      obtain ⟨x, hx, hcx⟩ := joinWith_head ' ' ds (fun x hx => (htok x hx).1) c hc
+      exact (htok x hx).2 c hcx
+    · intro c hc
+      obtain ⟨x, hx, hcx⟩ := joinWith_last ' ' ds (fun x hx => (htok x hx).1) c hc
+      exact (htok x hx).2 c hcx
+  rw [C02.destinations_text, hs, splitOn_joinWith ' ' ds hne (by
+    intro x hx hm
+    have := (htok x hx).2 ' ' hm
+    exact absurd this (by decide)), dedup_nodup ds hnd]
+
+
+
+theorem foldl_dupStep_nodup (ps : List (Str × Nat)) (acc : List Str × Fixer)
+    (h : (acc.1 ++ ps.map (·.1)).Nodup) : ps.foldl dupStep acc = (acc.1 ++ ps.map (·.1), acc.2) := by
+  induction ps generalizing acc with
+  | nil => simp
+  | cons p ps ih =>
+    have hp : acc.1.contains p.1 = false := by
+      simp only [List.map_cons] at h
+      have := (List.nodup_append.1 h).2.2
+      cases hc : acc.1.contains p.1 with
+      | false => rfl
+      | true =>
+        have hm : p.1 ∈ acc.1 := by simpa using hc
+        exact absurd rfl (this p.1 hm p.1 (by simp))
+    have hs : dupStep acc p = (acc.1 ++ [p.1], acc.2) := by
+      unfold dupStep; rw [hp]; rfl
+    simp only [List.foldl_cons, hs]
+    rw [ih (acc.1 ++ [p.1], acc.2) (by simpa using h)]
+    simp
+
+/-- pairwise distinct names pass `_fix_duplicate_column_names` untouched and uncounted -/
+theorem fixDuplicates_nodup (names : List Str) (f : Fixer) (h : names.Nodup) : fixDuplicates names f = (names, f) := by
+  unfold fixDuplicates
+  rw [foldl_dupStep_nodup names.zipIdx ([], f) (by simpa [C02.map_fst_zipIdx] using h), C02.map_fst_zipIdx]
+  rfl
+
+theorem foldl_shortStep_full (n : Nat) (ps : List (Row × Nat)) (acc : List Row × Fixer)
+    (h : ∀ p ∈ ps, ¬ p.1.length < n) : ps.foldl (shortStep n) acc = (acc.1 ++ ps.map (·.1), acc.2) := by
+  induction ps generalizing acc with
+  | nil => simp
+  | cons p ps ih =>
+    have hs : shortStep n acc p = (acc.1 ++ [p.1], acc.2) := by simp [shortStep, h p (by simp)]
+    simp only [List.foldl_cons, hs]
+    rw [ih _ (fun q hq => h q (List.mem_cons_of_mem _ hq))]
+    simp
+
+/-- rows that are long enough pass `fix_missing_rows_in_column_data` untouched and uncounted -/
+theorem fixShortRows_full (rows : List Row) (n : Nat) (f : Fixer) (h : ∀ r ∈ rows, ¬ r.length < n) :
+    fixShortRows rows n f = (rows, f) := by
+  unfold fixShortRows
+  rw [foldl_shortStep_full n rows.zipIdx ([], f) (by
+    intro p hp
+    have : p.1 ∈ rows.zipIdx.map (·.1) := List.mem_map.2 ⟨p, hp, rfl⟩
+    rw [C02.map_fst_zipIdx] at this
+    exact h p.1 this), C02.map_fst_zipIdx]
+  rfl
+
+theorem foldl_min_const (m : Nat) (cs : List (List Cell)) (h : ∀ c ∈ cs, c.length = m) :
+    cs.foldl (fun k d => min k d.length) m = m := by
+  induction cs with
+  | nil => rfl
+  | cons c cs ih =>
+    simp only [List.foldl_cons, h c (by simp), Nat.min_self]
+    exact ih (fun d hd => h d (List.mem_cons_of_mem _ hd))
+
+/-- `zip(*data)` of columns of one common length `m` -/
+theorem zipStar_rect (cols : List (List Cell)) (m : Nat) (hne : cols ≠ []) (h : ∀ c ∈ cols, c.length = m) :
+    zipStar cols = (List.range m).map (fun i => cols.map (fun col => col.getD i .none)) := by
+  cases cols with
+  | nil => exact absurd rfl hne
+  | cons c cs =>
+    simp only [zipStar]
+    rw [h c (by simp), foldl_min_const m cs (fun d hd => h d (List.mem_cons_of_mem _ hd))]
+
+theorem map_range_getD (l : List Cell) (m : Nat) (h : l.length = m) :
+    (List.range m).map (fun i => l.getD i .none) = l := by
+  subst h
+  apply List.ext_getElem
+  · simp
+  · intro i h1 h2
+    simp at h1
+    simp [List.getD_eq_getElem?_getD, h1]
+
+/-- transposing the zipped rows gives the columns back -/
+theorem transposeN_zipStar (cols : List (List Cell)) (m : Nat) (hne : cols ≠ []) (h : ∀ c ∈ cols, c.length = m) :
+    transposeN (zipStar cols) cols.length = cols := by
+  rw [zipStar_rect cols m hne h]
+  unfold transposeN
+  apply List.ext_getElem
+  · simp
+  · intro j h1 h2
+    simp at h1
+    simp only [List.getElem_map, List.getElem_range, List.map_map, Function.comp_def, getD0]
+    have : ∀ i, (cols.map (fun col => col.getD i Cell.none)).getD j Cell.none = cols[j].getD i Cell.none := by
+      intro i; simp [List.getD_eq_getElem?_getD, h1]
+    simp only [this]
+    exact map_range_getD cols[j] m (h _ (List.getElem_mem h1))
+
+
+
+namespace Spec
+def isText : Val → Bool | .text _ => true | _ => false
+def isBool : Val → Bool | .bool _ => true | _ => false
+def isNumber : Val → Bool | .num _ => true | .int _ => true | _ => false
+def isStamp : Val → Bool | .dt t => t != "NaT".toList | _ => false
+def textOf : Val → Str | .text s => s | _ => []
+def boolOf : Val → Bool | .bool b => b | _ => false
+def stampOf : Val → Str | .dt t => t | _ => []
+def numOf (fi : Int → Str) : Val → Str | .num t => t | .int i => fi i | _ => []
+
+def kindOK (c : Column) : Bool :=
+  if c.unit = "text".toList then c.values.all isText
+  else if c.unit = "onoff".toList then c.values.all isBool
+  else if c.unit = "datetime".toList then c.values.all isStamp && dtHomogeneous (c.values.map stampOf)
+  else c.values.all isNumber
+
+def observeCol (fi : Int → Str) (c : Column) : ColVals :=
+  if c.unit = "text".toList then .text (c.values.map textOf)
+  else if c.unit = "onoff".toList then .onoff (c.values.map boolOf)
+  else if c.unit = "datetime".toList then .dt (c.values.map stampOf)
+  else .num (c.values.map (numOf fi))
+end Spec
+
+/-- the codec law for one timestamp: `str(ts)` is trimmed text starting with a digit, is no missing-value
+    marker, and `pandas.to_datetime(str(ts))` is `ts` again -/
+def dtOK (ext : Ext) (tok : Str) : Bool :=
+  match strip (Spec.stamp tok) with
+  | [] => false
+  | c :: cs => ext.isDigit c && !isMissingMarker (Spec.stamp tok) && (ext.parseDt (c :: cs) == .ok tok)
+
+def DtCol (ext : Ext) (c : Column) : Prop :=
+  c.unit = "datetime".toList → ∀ v ∈ c.values, dtOK ext (Spec.stampOf v) = true
+
+/-- external law for integers: `float(i)` does not overflow (true for every |i| < 2^1023, in particular below 2^53) -/
+def intOK (fi : Int → Str) : Val → Bool
+  | .int i => fi i != overflowTok
+  | _ => true
+
+def IntCol (fi : Int → Str) (c : Column) : Prop := ∀ v ∈ c.values, intOK fi v = true
+
+theorem parseWith_all_some {α β : Type} (cellFn : Cell → Option α) (rep : FixCfg → α) (vt : String)
+    (vs : List β) (f : Fixer) (φ : β → Cell) (ψ : β → α) (h : ∀ v ∈ vs, cellFn (φ v) = some (ψ v)) :
+    parseWith cellFn rep vt (vs.map φ) f = (vs.map ψ, f) := by
+  induction vs with
+  | nil => rfl
+  | cons v vs ih =>
+    simp only [List.map_cons]
+    unfold parseWith
+    rw [h v (by simp)]
+    simp [ih (fun d hd => h d (List.mem_cons_of_mem _ hd))]
+
+theorem parseDatetime_all_ok {β : Type} (ext : Ext) (vs : List β) (f : Fixer) (φ : β → Cell) (ψ : β → Str)
+    (h : ∀ v ∈ vs, dtCell ext (φ v) = .ok (ψ v)) : parseDatetime ext (vs.map φ) f = .ok (vs.map ψ, f) := by
+  induction vs with
+  | nil => rfl
+  | cons v vs ih =>
+    simp only [List.map_cons]
+    unfold parseDatetime
+    rw [h v (by simp)]
+    simp [ih (fun d hd => h d (List.mem_cons_of_mem _ hd)), bind, Except.bind, pure, Except.pure]
+
+theorem dtCell_stamp (ext : Ext) (tok : Str) (h : dtOK ext tok = true) :
+    dtCell ext (.str (Spec.stamp tok)) = .ok tok := by
+  unfold dtOK at h
+  split at h
+  · cases h
+  · rename_i c cs hs
+    simp only [Bool.and_eq_true, Bool.not_eq_true', beq_iff_eq] at h
+    obtain ⟨⟨hd, hm⟩, hp⟩ := h
+    have hm' : ¬ C02.Spec.IsMarker (Spec.stamp tok) := by
+      intro e; rw [(C02.isMissingMarker_iff _).2 e] at hm; cases hm
+    rw [C02.type_datetime_text ext _ c cs hs hd hm', hp]
+
+theorem units_pinned : uText = "text".toList ∧ uOnoff = "onoff".toList ∧ uDatetime = "datetime".toList :=
+  ⟨rfl, rfl, rfl⟩
+
+/-- a column of a well-formed table, laid out as cells by `json_data_to_table`, parses to itself; the fixer is
+    not called -/
+theorem parseColumn_wf (ext : Ext) (fi : Int → Str) (c : Column) (f : Fixer)
+    (hk : Spec.kindOK c = true) (hdt : DtCol ext c) (hint : IntCol fi c) :
+    parseColumn ext c.unit (c.values.map (Spec.cell fi)) f = .ok (Spec.observeCol fi c, f) := by
+  unfold Spec.kindOK at hk
+  unfold Spec.observeCol parseColumn
+  rw [units_pinned.1, units_pinned.2.1, units_pinned.2.2]
+  by_cases h1 : c.unit = "text".toList
+  · rw [if_pos h1] at hk
+    rw [if_pos h1, if_pos h1, List.map_map]
+    congr 3
+    apply List.map_congr_left
+    intro v hv
+    have := List.all_eq_true.1 hk v hv
+    cases v <;> simp [Spec.isText] at this <;> rfl
+  · rw [if_neg h1] at hk
+    rw [if_neg h1, if_neg h1]
+    by_cases h2 : c.unit = "onoff".toList
+    · rw [if_pos h2] at hk
+      rw [if_pos h2, if_pos h2]
+      have : parseOnoff (c.values.map (Spec.cell fi)) f = (c.values.map Spec.boolOf, f) := by
+        unfold parseOnoff
+        apply parseWith_all_some
+        intro v hv
+        have := List.all_eq_true.1 hk v hv
+        cases v <;> simp [Spec.isBool] at this <;> rfl
+      rw [this]
+    · rw [if_neg h2] at hk
+      rw [if_neg h2, if_neg h2]
+      by_cases h3 : c.unit = "datetime".toList
+      · rw [if_pos h3] at hk
+        rw [if_pos h3, if_pos h3]
+        have hk1 : c.values.all Spec.isStamp = true := by
+          simp only [Bool.and_eq_true] at hk; exact hk.1
+        have : parseDatetime ext (c.values.map (Spec.cell fi)) f = .ok (c.values.map Spec.stampOf, f) := by
+          apply parseDatetime_all_ok
+          intro v hv
+          have hs := List.all_eq_true.1 hk1 v hv
+          have hok := hdt h3 v hv
+          cases v with
+          | dt t =>
+            have hne : ¬ t = "NaT".toList := by simpa [Spec.isStamp] using hs
+            show dtCell ext (if t = "NaT".toList then Cell.none else Cell.str (Spec.stamp t)) = _
+            rw [if_neg hne]
+            exact dtCell_stamp ext t hok
+          | _ => simp [Spec.isStamp] at hs
+        rw [this]; rfl
+      · rw [if_neg h3] at hk
+        rw [if_neg h3, if_neg h3]
+        have : parseFloat ext (c.values.map (Spec.cell fi)) f = (c.values.map (Spec.numOf fi), f) := by
+          unfold parseFloat
+          apply parseWith_all_some
+          intro v hv
+          have := List.all_eq_true.1 hk v hv
+          cases v with
+          | num t =>
+            show floatCell ext (if t = "nan".toList then Cell.none else Cell.float t) = _
+            by_cases ht : t = "nan".toList
+            · rw [if_pos ht, ht]; rfl
+            · rw [if_neg ht]; rfl
+          | int i =>
+            have hi : fi i ≠ overflowTok := by simpa [intOK] using hint _ hv
+            simp [Spec.cell, floatCell, Spec.numOf, hi]
+          | _ => simp [Spec.isNumber] at this
+        rw [this]
+
+
+/-! ### the table json_data_to_table rebuilds -/
+
+namespace Spec
+/-- what is compared after the round trip: name, destinations, column order, units, values (numbers as float
+    tokens: an integer `i` as `repr(float(i))`); a table without rows has no typed columns; the orientation flag
+    is not part of JsonData -/
+def observe (fi : Int → Str) (t : TableVal) : Precursor :=
+  ⟨t.name, false, t.destinations, t.columns.map (·.name), t.columns.map (·.unit),
+   if t.nRows = 0 then List.replicate t.columns.length .raw else t.columns.map (observeCol fi)⟩
+end Spec
+
+/-- **well-formed table** (DESIGN §3 clauses 1–5 as far as the JSON trip needs them): the name does not end in
+    `*`; destinations: a non-empty list of pairwise distinct, non-empty, blank-free tokens; column names pairwise
+    distinct, not blank, equal to their own `strip`; units equal to their own `strip` and matching the kind of
+    their values (text / onoff / datetime / anything else = numbers); no missing datetime, one UTC offset per
+    datetime column; all columns of one length -/
+def WF (t : TableVal) : Prop :=
+  t.name.getLast? ≠ some '*' ∧
+  t.destinations ≠ [] ∧ t.destinations.Nodup ∧
+  (∀ d ∈ t.destinations, d ≠ [] ∧ ∀ c ∈ d, isSpace c = false) ∧
+  (t.columns.map (·.name)).Nodup ∧
+  (∀ c ∈ t.columns, allSpace c.name = false ∧ strip c.name = c.name ∧ strip c.unit = c.unit ∧
+    c.values.length = t.nRows ∧ Spec.kindOK c = true)
+
+instance (t : TableVal) : Decidable (WF t) := by unfold WF; infer_instance
+
+/-- the external laws the round trip rests on, for the values of this table: `to_datetime(str(ts)) = ts` for
+    its timestamps (and `str(ts)` starts with a digit, is trimmed, is no marker), `float(i)` exists for its
+    integers -/
+def Codec (ext : Ext) (fi : Int → Str) (t : TableVal) : Prop :=
+  ∀ c ∈ t.columns, DtCol ext c ∧ IntCol fi c
+
+instance (ext : Ext) (fi : Int → Str) (t : TableVal) : Decidable (Codec ext fi t) := by
+  unfold Codec DtCol IntCol; infer_instance
+
+theorem parseColumns_nil_right (ext : Ext) (us : List Str) (f : Fixer) : parseColumns ext us [] f = .ok ([], f) := by
+  cases us <;> rfl
+
+theorem parseColumns_wf (ext : Ext) (fi : Int → Str) (cols : List Column) (f : Fixer)
+    (h : ∀ c ∈ cols, Spec.kindOK c = true ∧ DtCol ext c ∧ IntCol fi c) :
+    parseColumns ext (cols.map (·.unit)) (cols.map (fun c => c.values.map (Spec.cell fi))) f =
+      .ok (cols.map (Spec.observeCol fi), f) := by
+  induction cols with
+  | nil => rfl
+  | cons c cs ih =>
+    have hc := h c (by simp)
+    simp only [List.map_cons, parseColumns, parseColumn_wf ext fi c f hc.1 hc.2.1 hc.2.2,
+      ih (fun d hd => h d (List.mem_cons_of_mem _ hd)), bind, Except.bind, pure, Except.pure]
+
+theorem zipStar_row_length (cols : List (List Cell)) : ∀ r ∈ zipStar cols, r.length = cols.length := by
+  cases cols with
+  | nil => intro r hr; simp [zipStar] at hr
+  | cons c cs =>
+    intro r hr
+    simp only [zipStar, List.mem_map] at hr
+    obtain ⟨i, _, rfl⟩ := hr
+    simp
+
+theorem observeCol_length (fi : Int → Str) (c : Column) : (Spec.observeCol fi c).length = c.values.length := by
+  unfold Spec.observeCol
+  split
+  · simp [ColVals.length]
+  · split
+    · simp [ColVals.length]
+    · split <;> simp [ColVals.length]
+
+theorem observeCol_dt (fi : Int → Str) (c : Column) (xs : List Str) (hk : Spec.kindOK c = true)
+    (h : Spec.observeCol fi c = .dt xs) : dtHomogeneous xs = true := by
+  unfold Spec.observeCol at h
+  unfold Spec.kindOK at hk
+  by_cases h1 : c.unit = "text".toList
+  · rw [if_pos h1] at h; cases h
+  · rw [if_neg h1] at h hk
+    by_cases h2 : c.unit = "onoff".toList
+    · rw [if_pos h2] at h; cases h
+    · rw [if_neg h2] at h hk
+      by_cases h3 : c.unit = "datetime".toList
+      · rw [if_pos h3] at h hk
+        simp only [Bool.and_eq_true] at hk
+        cases h; exact hk.2
+      · rw [if_neg h3] at h; cases h
+
+theorem makeTable_of_precursor (ext : Ext) (cells : List Row) (f0 f : Fixer) (p : Precursor)
+    (hp : makePrecursor ext cells f0 = .ok (p, f)) (m : Nat) (hlen : ∀ d ∈ p.columns, d.length = m)
+    (hdt : ∀ xs, ColVals.dt xs ∈ p.columns → dtHomogeneous xs = true) :
+    makeTable ext cells f0 = .ok (p, f) := by
+  unfold makeTable
+  simp only [hp, bind, Except.bind]
+  cases hc : p.columns with
+  | nil => rfl
+  | cons c cs =>
+    have h1 : cs.all (fun d => decide (d.length = c.length)) = true := by
+      rw [List.all_eq_true]
+      intro d hd
+      have := hlen d (by rw [hc]; exact List.mem_cons_of_mem _ hd)
+      have := hlen c (by rw [hc]; simp)
+      simp [*]
+    have h2 : (c :: cs).any ColVals.dtInhomogeneous = false := by
+      rw [List.any_eq_false]
+      intro d hd
+      cases d with
+      | dt xs => simp [ColVals.dtInhomogeneous, hdt xs (by rw [hc]; exact hd)]
+      | _ => simp [ColVals.dtInhomogeneous]
+    simp only [h1, h2, Bool.not_true, Bool.and_false, Bool.false_eq_true, if_false]
+    rfl
+
+theorem nRows_zero_zipStar (fi : Int → Str) (t : TableVal) (h0 : t.nRows = 0) :
+    zipStar (t.columns.map (fun c => c.values.map (Spec.cell fi))) = [] := by
+  unfold TableVal.nRows at h0
+  cases hc : t.columns with
+  | nil => rfl
+  | cons c cs =>
+    rw [hc] at h0
+    simp only [List.map_cons, zipStar, List.length_map, h0]
+    have : ∀ (l : List (List Cell)), l.foldl (fun m d => min m d.length) 0 = 0 := by
+      intro l; induction l with
+      | nil => rfl
+      | cons d ds ih => simpa using ih
+    rw [this]; rfl
+
+/-- `make_table` on the grid `json_data_to_table` builds from the JsonData of a well-formed table -/
+theorem makeTable_grid (ext : Ext) (fi : Int → Str) (t : TableVal) (hwf : WF t) (hco : Codec ext fi t) :
+    makeTable ext (Spec.grid fi t) freshFixer = .ok (Spec.observe fi t, freshFixer) := by
+  obtain ⟨hname, hdne, hdnd, hdtok, hnn, hcols⟩ := hwf
+  -- layout
+  have hnames : parseColumnNames (t.columns.map (fun c => Cell.str c.name)) = .ok (t.columns.map (·.name)) := by
+    have := (C02.names_until_first_blank (t.columns.map (·.name)) .none [] (by
+      intro s hs
+      obtain ⟨c, hc, rfl⟩ := List.mem_map.1 hs
+      exact (hcols c hc).1) rfl).2
+    rw [List.map_map] at this
+    rw [show (t.columns.map (fun c => Cell.str c.name)) = t.columns.map (Cell.str ∘ fun c => c.name) from rfl, this,
+      List.map_map]
+    congr 1
+    apply List.map_congr_left
+    intro c hc
+    exact (hcols c hc).2.1
+  have hlay : layout (Spec.grid fi t) = .ok ⟨t.name, false, t.destinations, t.columns.map (·.name),
+      t.columns.map (·.unit), zipStar (t.columns.map (fun c => c.values.map (Spec.cell fi)))⟩ := by
+    show layout ((Cell.str ("**".toList ++ t.name) :: []) :: (Cell.str (joinWith ' ' t.destinations) :: []) ::
+      t.columns.map (fun c => Cell.str c.name) :: t.columns.map (fun c => Cell.str c.unit) ::
+      zipStar (t.columns.map (fun c => c.values.map (Spec.cell fi)))) = _
+    rw [C02.layout_rowwise _ _ _ _ _ _ _ (by exact hname), hnames]
+    have htake : (t.columns.map (fun c => Cell.str c.unit)).take (t.columns.map (·.name)).length =
+        t.columns.map (fun c => Cell.str c.unit) := by
+      apply List.take_of_length_le; simp
+    have hall : (t.columns.map (fun c => Cell.str c.unit)).all Cell.isStr = true := by
+      simp [Cell.isStr]
+    have hunits : (t.columns.map (fun c => Cell.str c.unit)).map stripOfStr = t.columns.map (·.unit) := by
+      rw [List.map_map]
+      apply List.map_congr_left
+      intro c hc
+      exact (hcols c hc).2.2.1
+    have hrows : (zipStar (t.columns.map (fun c => c.values.map (Spec.cell fi)))).map
+        (fun l => l.take (t.columns.map (·.name)).length) =
+        zipStar (t.columns.map (fun c => c.values.map (Spec.cell fi))) := by
+      conv => rhs; rw [← List.map_id (zipStar _)]
+      apply List.map_congr_left
+      intro r hr
+      have := zipStar_row_length _ r hr
+      simp only [id]
+      apply List.take_of_length_le
+      simp [this]
+    simp only [htake, hall, if_true, hunits, hrows]
+    rw [destinations_join t.destinations hdne hdnd hdtok]
+    rfl
+  -- finish
+  have hfin : makePrecursor ext (Spec.grid fi t) freshFixer = .ok (Spec.observe fi t, freshFixer) := by
+    unfold makePrecursor
+    simp only [hlay, bind, Except.bind]
+    unfold finish
+    simp only [fixDuplicates_nodup _ freshFixer hnn]
+    rw [fixShortRows_full _ _ freshFixer (by
+      intro r hr
+      have := zipStar_row_length _ r hr
+      simp at this
+      simp [this])]
+    simp only []
+    by_cases h0 : t.nRows = 0
+    · rw [nRows_zero_zipStar fi t h0]
+      simp only [List.isEmpty_nil, if_true, parseColumns_nil_right, bind, Except.bind]
+      simp [Spec.observe, h0, freshFixer, Fixer.fixes, pure, Except.pure]
+    · have hne : t.columns ≠ [] := by
+        intro e; apply h0; simp [TableVal.nRows, e]
+      have hrect : ∀ c ∈ t.columns.map (fun c => c.values.map (Spec.cell fi)), c.length = t.nRows := by
+        intro x hx
+        obtain ⟨c, hc, rfl⟩ := List.mem_map.1 hx
+        simpa using (hcols c hc).2.2.2.1
+      have hne' : t.columns.map (fun c => c.values.map (Spec.cell fi)) ≠ [] := by simpa using hne
+      have hnotempty : (zipStar (t.columns.map (fun c => c.values.map (Spec.cell fi)))).isEmpty = false := by
+        rw [zipStar_rect _ t.nRows hne' hrect]
+        cases hn : t.nRows with
+        | zero => exact absurd hn h0
+        | succ k => simp [List.range_succ_eq_map]
+      have htr := transposeN_zipStar _ t.nRows hne' hrect
+      simp only [List.length_map] at htr
+      simp only [hnotempty, Bool.false_eq_true, if_false, List.length_map, htr]
+      rw [parseColumns_wf ext fi t.columns freshFixer (fun c hc => ⟨(hcols c hc).2.2.2.2, hco c hc⟩)]
+      simp [Spec.observe, h0, freshFixer, Fixer.fixes, pure, Except.pure, bind, Except.bind]
+  -- the DataFrame checks
+  apply makeTable_of_precursor ext _ _ _ _ hfin t.nRows
+  · intro d hd
+    by_cases h0 : t.nRows = 0
+    · simp only [Spec.observe, h0, if_true] at hd
+      rw [List.eq_of_mem_replicate hd, h0]; rfl
+    · simp only [Spec.observe, h0, if_false] at hd
+      obtain ⟨c, hc, rfl⟩ := List.mem_map.1 hd
+      rw [observeCol_length]; exact (hcols c hc).2.2.2.1
+  · intro xs hxs
+    by_cases h0 : t.nRows = 0
+    · simp only [Spec.observe, h0, if_true] at hxs
+      have := List.eq_of_mem_replicate hxs
+      cases this
+    · simp only [Spec.observe, h0, if_false] at hxs
+      obtain ⟨c, hc, he⟩ := List.mem_map.1 hxs
+      exact observeCol_dt fi c xs (hcols c hc).2.2.2.2 he
+
+/-- **json_roundtrip**: for every well-formed table without missing datetimes, `json_data_to_table` applied to
+    `table_to_json_data t` rebuilds the table: same name, destinations, column order, units and values; a missing
+    number travels as `null`, comes back as an empty cell and is a missing number again.  (The JSON text trip
+    in between is CPython's `json` module: the identity on NaN-free plain data, trusted base.) -/
+theorem json_roundtrip (ext : Ext) (fi : Int → Str) (t : TableVal) (hwf : WF t) (hco : Codec ext fi t) :
+    ∃ j, ofTable t = .ok j ∧ j = Spec.tableJson t ∧ toTable ext fi j = .ok (Spec.observe fi t) := by
+  refine ⟨_, ofTable_eq t hwf.2.2.1 hwf.2.2.2.2.1, rfl, ?_⟩
+  unfold toTable
+  simp only [toGrid_tableJson, makeTable_grid ext fi t hwf hco, bind, Except.bind, pure, Except.pure]
+
+/-! ### non-vacuity -/
+
+def exampleExt : Ext :=
+  ⟨fun _ => none,
+   fun s => if s = "2020-01-02 03:04:05.000006".toList then .ok "2020-01-02T03:04:05.000006".toList else .valueError,
+   fun c => '0' ≤ c && c ≤ '9'⟩
+
+def exampleFi (i : Int) : Str := intToStr i ++ ".0".toList
+
+/-- five columns, one of each kind (float and int numbers), a missing number, unicode, blanks inside a name -/
+def exampleTable : TableVal :=
+  ⟨"t é;".toList, ["a".toList, "b*".toList], true,
+   [⟨"x y".toList, "text".toList, [.text "é ".toList, .text []]⟩,
+    ⟨"n".toList, "m/s".toList, [.num "1.5".toList, .num "nan".toList]⟩,
+    ⟨"i".toList, "-".toList, [.int 3, .int (-1)]⟩,
+    ⟨"o".toList, "onoff".toList, [.bool true, .bool false]⟩,
+    ⟨"d".toList, "datetime".toList, [.dt "2020-01-02T03:04:05.000006".toList, .dt "2020-01-02T03:04:05.000006".toList]⟩]⟩
+
+example : WF exampleTable := by decide
+example : Codec exampleExt exampleFi exampleTable := by decide
+
+/-- the model really computes the round trip on the example (not only by the theorem) -/
+example :
+    (match toTable exampleExt exampleFi (Spec.tableJson exampleTable) with
+     | .ok p => some (p.name, p.transposed, p.destinations)
+     | .error _ => none) = some ("t é;".toList, false, ["a".toList, "b*".toList]) := by decide
+
+example :
+    (match toTable exampleExt exampleFi (Spec.tableJson exampleTable) with
+     | .ok p => some (p.names, p.units)
+     | .error _ => none) =
+    some (["x y".toList, "n".toList, "i".toList, "o".toList, "d".toList],
+      ["text".toList, "m/s".toList, "-".toList, "onoff".toList, "datetime".toList]) := by decide
+
+example :
+    (match toTable exampleExt exampleFi (Spec.tableJson exampleTable) with
+     | .ok p => some p.columns
+     | .error _ => none) =
+    some [.text ["é ".toList, []], .num ["1.5".toList, "nan".toList], .num ["3.0".toList, "-1.0".toList],
+       .onoff [true, false], .dt ["2020-01-02T03:04:05.000006".toList, "2020-01-02T03:04:05.000006".toList]] := by
+  decide
+
+/-- **why missing datetimes are excluded**: a NaT travels as `null`, reaches `_parse_datetime_column` as an
+    empty cell, the strict fixer counts it and `json_data_to_table` raises ValueError -/
+def natTable : TableVal :=
+  ⟨"t".toList, ["a".toList], false, [⟨"d".toList, "datetime".toList, [.dt "NaT".toList]⟩]⟩
+
+theorem nat_not_roundtrip :
+    (match toTable exampleExt exampleFi (Spec.tableJson natTable) with
+     | .ok _ => none
+     | .error e => some e) = some PyExc.valueError := by decide
+
+/-- and `natTable` violates `WF` only in that clause -/
+example : ¬ WF natTable := by decide
 
 end Pdt.C08
